@@ -16,9 +16,13 @@
   `msgOK_init` shows that every object produced by Init satisfies `msgOK`.
   Also `stable_tokparam`: ParseTokenParam, every option combination without the end-of-input option
   (the property's own exemption), any object.
+  The exempted case is characterised exactly (`body_to_end_grows`, `body_to_end_grows_init`, `body_to_end_bytes`,
+  `body_to_end_really_changes`): for a message without Content-Length whose body is "the rest of the buffer", the
+  call on the longer buffer returns OK at the new end and an object that differs from the first one ONLY in the body
+  length, len(Buf) and the raw-message length (`BodyGrew`); the new body is the old body followed by the appended
+  bytes; and the result does change when bytes are appended — so the exemption is necessary.
   NOT yet proved: the URI parameter and header list wrappers (loops over ParseTokenParam; stand-alone parsers
-  not used by ParseSIPMsg); for the exempted case (`bodyToEnd`) the statement that everything but the body
-  extent is unchanged.
+  not used by ParseSIPMsg).
 -/
 import Sipsp.Proofs.CallID
 import Sipsp.Proofs.UInt
@@ -26,6 +30,7 @@ import Sipsp.Proofs.SkipQuoted
 import Sipsp.Proofs.NameAddrL1b
 import Sipsp.Proofs.MsgL1
 import Sipsp.Proofs.TokParamL1
+import Sipsp.Proofs.MsgL1Body
 
 namespace Sipsp.C03
 open Sipsp
@@ -108,6 +113,44 @@ theorem stable_tokparam (b s : Buf) (o : Nat) (p : PTokParam) (flags : Nat)
     (hf : hasFlag flags POptInputEndF = false) {o' : Nat} {e : Err} {p' : PTokParam}
     (h : parseTokenParam b o p flags = (o', e, p')) (he : e ≠ .moreBytes) :
     parseTokenParam (b ++ s) o p flags = (o', e, p') := parseTokenParam_stable b s o p flags hf h he
+
+/-! ### the exempted case: body = rest of the buffer -/
+
+/-- everything but the body length, len(Buf) and the raw length is unchanged; those are the ones of the longer buffer.
+    (`hoffs`: the object is new, or its remembered start lies inside the shorter buffer, or the first call did not
+    panic — automatically true for objects from Init) -/
+theorem body_to_end_grows (b s : Buf) (o : Nat) (m : PSIPMsg) (flags : Nat) (hok : msgOK b o m)
+    (hfit : (b ++ s).size ≤ 65535) (hnf : hasFlag flags SIPMsgNoMoreDataF = false) {o' : Nat} {m' : PSIPMsg}
+    (hr : parseSIPMsg b o m flags = (o', .ok, m')) (hx : bodyToEnd flags m')
+    (hoffs : m.state = .init ∨ m.offs ≤ b.size ∨ m'.pnc = false) :
+    o' = b.size ∧ ∃ m'', parseSIPMsg (b ++ s) o m flags = ((b ++ s).size, .ok, m'') ∧ BodyGrew m' (b ++ s).size m'' :=
+  parseSIPMsg_bodyToEnd_grows b s o m flags hok hfit hnf hr hx hoffs
+
+theorem body_to_end_grows_init (b s : Buf) (o : Nat) (ho : o ≤ b.size) (m0 : PSIPMsg) (len kh kc : Nat)
+    (hdrs cts : Option Unit) (flags : Nat) (hfit : (b ++ s).size ≤ 65535)
+    (hnf : hasFlag flags SIPMsgNoMoreDataF = false) {o' : Nat} {m' : PSIPMsg}
+    (hr : parseSIPMsg b o (m0.init len (hdrs.map fun _ => Array.replicate kh {})
+      (cts.map fun _ => Array.replicate kc {})) flags = (o', .ok, m')) (hx : bodyToEnd flags m') :
+    o' = b.size ∧ ∃ m'', parseSIPMsg (b ++ s) o (m0.init len (hdrs.map fun _ => Array.replicate kh {})
+      (cts.map fun _ => Array.replicate kc {})) flags = ((b ++ s).size, .ok, m'') ∧ BodyGrew m' (b ++ s).size m'' :=
+  parseSIPMsg_bodyToEnd_grows_init b s o ho m0 len kh kc hdrs cts flags hfit hnf hr hx
+
+/-- the new body is the old body followed by the appended bytes -/
+theorem body_to_end_bytes (b s : Buf) (o : Nat) (m : PSIPMsg) (flags : Nat) (hok : msgOK b o m)
+    (hfit : (b ++ s).size ≤ 65535) (hnf : hasFlag flags SIPMsgNoMoreDataF = false) {o' : Nat} {m' : PSIPMsg}
+    (hr : parseSIPMsg b o m flags = (o', .ok, m')) (hx : bodyToEnd flags m')
+    (hoffs : m.state = .init ∨ m.offs ≤ b.size ∨ m'.pnc = false) {o'' : Nat} {e'' : Err} {m'' : PSIPMsg}
+    (hr2 : parseSIPMsg (b ++ s) o m flags = (o'', e'', m'')) :
+    ∃ body, m'.body.get? b = some body ∧ m''.body.get? (b ++ s) = some (body ++ s) :=
+  parseSIPMsg_bodyToEnd_body b s o m flags hok hfit hnf hr hx hoffs hr2
+
+/-- the exemption is necessary: with a non-empty extension the result does change -/
+theorem body_to_end_really_changes (b s : Buf) (o : Nat) (m : PSIPMsg) (flags : Nat) (hok : msgOK b o m)
+    (hfit : (b ++ s).size ≤ 65535) (hnf : hasFlag flags SIPMsgNoMoreDataF = false) {o' : Nat} {m' : PSIPMsg}
+    (hr : parseSIPMsg b o m flags = (o', .ok, m')) (hx : bodyToEnd flags m')
+    (hoffs : m.state = .init ∨ m.offs ≤ b.size ∨ m'.pnc = false) (hs : 0 < s.size) :
+    (parseSIPMsg (b ++ s) o m flags).1 = o' + s.size ∧ parseSIPMsg (b ++ s) o m flags ≠ parseSIPMsg b o m flags :=
+  parseSIPMsg_bodyToEnd_changes b s o m flags hok hfit hnf hr hx hoffs hs
 
 /-- a new object satisfies the hypotheses -/
 theorem new_objects_ok (b : Buf) (o : Nat) (ho : o ≤ b.size) :
